@@ -154,6 +154,7 @@ Proof.
     split; [reflexivity|]. split; [vm_compute; reflexivity|]. split.
     + intros x Hx. apply (merge_covers_inputs _ _ _ _ _ _ _ _ _ _ _ _ _ Ha Hb Hu Hm). left. exact Hx.
     + intros n' c' [Hin|[]] x Hx. injection Hin as <- <-. apply (merge_covers_inputs _ _ _ _ _ _ _ _ _ _ _ _ _ Ha Hb Hu Hm). right. exact Hx.
-  - assert (Hne : shard_name cw_A <> shard_name cw_B) by (vm_compute; discriminate). repeat constructor; cbn; intuition.
+  - assert (Hne : shard_name cw_A <> shard_name cw_B) by (vm_compute; discriminate). change (map fst cw_dir) with [shard_name cw_A; shard_name cw_B].
+    constructor; [intros [H|[]]; apply Hne; symmetry; exact H | constructor; [intros [] | constructor]].
   - reflexivity.
 Qed.
